@@ -33,23 +33,48 @@ def _copy_like(f: Fn, d, res: str):
     self.copy() for reindex()?  Every entry must be deep-copied, except the arrays of the variables (the `'_' + name`
     entries for the names in `index`), which reindex() rebuilds one by one.  (True/False/None, reason)."""
     v = d.ast.value
-    if not (isinstance(v, ast.Call) and text(v.func) in ('self.__class__', 'type(self)')):
+    if not (isinstance(v, ast.Call) and text(v.func) in ('self.__class__', 'type(self)', 'self.__class__.__new__', 'type(self).__new__', 'object.__new__')):
         return (False, 'the result does not start as a copy of the object') if (isinstance(v, ast.Name) and v.id == 'self') else (None, 'not a new instance of the class')
     ups = [n for n in f.cfg.nodes if n.kind == 'stmt' and n.ast is not None and d.id in f.dom[n.id] and isinstance(n.ast, ast.Expr)
            and method_call(n.ast.value, 'update') and text(n.ast.value.func.value) == f'{res}.__dict__']
     if len(ups) != 1 or len(ups[0].ast.value.args) != 1:
         return (None, f'{len(ups)} `{res}.__dict__.update(...)` after it')
     dc = f.expand(ups[0].id, ups[0].ast.value.args[0], depth=2)
-    if not (isinstance(dc, ast.DictComp) and len(dc.generators) == 1 and not dc.generators[0].ifs and text(dc.generators[0].iter) == 'self.__dict__.items()'
+    if not (isinstance(dc, ast.DictComp) and len(dc.generators) == 1 and text(dc.generators[0].iter) == 'self.__dict__.items()'
             and isinstance(dc.generators[0].target, ast.Tuple) and len(dc.generators[0].target.elts) == 2):
         return (None, f'the update `{text(dc)[:60]}` is not a comprehension over every entry of self.__dict__')
     k_, v_ = (text(e) for e in dc.generators[0].target.elts)
+
+    def is_variables(coll) -> bool:
+        if isinstance(coll, ast.Name) and coll.id in f.lf.locals and coll.id not in f.mutated_in_place():
+            vals = f.lf.values_reaching(ups[0].id, coll.id)
+            if len(vals) == 1 and vals[0][1] is not None:
+                coll = vals[0][1]
+        return isinstance(coll, (ast.SetComp, ast.ListComp, ast.GeneratorExp)) and len(coll.generators) == 1 and not coll.generators[0].ifs \
+            and text(coll.generators[0].iter) in ("self.__dict__['index']", 'self.index') \
+            and text(coll.elt) in (f"'_' + {text(coll.generators[0].target)}", f"f'_{{{text(coll.generators[0].target)}}}'")
+
+    # entries filtered out altogether: only what reindex() sets itself afterwards (the variables' arrays, the span)
+    from fsa.match import conj_atoms
+    for c_ in dc.generators[0].ifs:
+        for a_ in conj_atoms(c_):
+            ok_ = False
+            if isinstance(a_, ast.Compare) and len(a_.ops) == 1 and text(a_.left) == k_:
+                if isinstance(a_.ops[0], ast.NotIn) and is_variables(a_.comparators[0]):
+                    ok_ = True
+                if isinstance(a_.ops[0], ast.NotEq) and is_const(a_.comparators[0], 'span'):
+                    ok_ = True
+            if not ok_:
+                return (None, f'entries are filtered by `{text(a_)[:50]}`')
     if text(dc.key) != k_:
         return (None, 'entries are stored under other keys')
     val = dc.value
     deep = lambda e: is_call(e, 'copy.deepcopy', 'deepcopy') and len(e.args) >= 1 and text(e.args[0]) == v_
     if deep(val):
         return (True, 'every entry deep-copied')
+    if (is_call(val, 'copy.copy', 'copy') and len(val.args) == 1 and text(val.args[0]) == v_) or text(val) == v_:
+        return (False, f'the entries of self.__dict__ are carried over as `{text(val)}` (shallow): mutable attributes (the list `index`, lists and dicts added as attributes) are shared '
+                       f'between the original and the reindexed object')
     if isinstance(val, ast.IfExp):
         test, a, b = val.test, val.body, val.orelse
         if isinstance(test, ast.UnaryOp) and isinstance(test.op, ast.Not):
@@ -59,13 +84,7 @@ def _copy_like(f: Fn, d, res: str):
         # which entries are skipped?  Only the variables' arrays may be
         if isinstance(test, ast.Compare) and len(test.ops) == 1 and isinstance(test.ops[0], ast.In) and text(test.left) == k_:
             coll = test.comparators[0]
-            if isinstance(coll, ast.Name) and coll.id in f.lf.locals and coll.id not in f.mutated_in_place():
-                vals = f.lf.values_reaching(ups[0].id, coll.id)
-                if len(vals) == 1 and vals[0][1] is not None:
-                    coll = vals[0][1]
-            if isinstance(coll, (ast.SetComp, ast.ListComp, ast.GeneratorExp)) and len(coll.generators) == 1 and not coll.generators[0].ifs \
-                    and text(coll.generators[0].iter) in ("self.__dict__['index']", 'self.index') \
-                    and text(coll.elt) in (f"'_' + {text(coll.generators[0].target)}", f"f'_{{{text(coll.generators[0].target)}}}'"):
+            if is_variables(coll):
                 return (True, 'every entry deep-copied except the arrays of the variables in `index`, which are rebuilt')
             return (None, f'skipped keys `{text(coll)[:60]}` not recognised as the variables of `index`')
         names = {x.id for x in ast.walk(test) if isinstance(x, ast.Name)}
